@@ -29,6 +29,19 @@ def configs(tier, rng_seed):
         for layer in LAYERS:
             out.append({"name": "+".join(s) + "@" + layer, "protos": list(s), "layer": layer,
                         "features": list(s) + [layer]})
+    if tier == "quick":
+        # plus a seeded sample of larger subsets (sizes 3..7), one layer each: conflicts that need three or more features
+        import random
+        rnd = random.Random(rng_seed * 7919 + 13)
+        seen = set()
+        while len(seen) < 36:
+            k = rnd.randint(3, 7)
+            sub = tuple(sorted(rnd.sample(PROTOS, k), key=PROTOS.index))
+            layer = rnd.choice(LAYERS)
+            if (sub, layer) in seen:
+                continue
+            seen.add((sub, layer))
+            out.append({"name": "+".join(sub) + "@" + layer, "protos": list(sub), "layer": layer, "features": list(sub) + [layer]})
     out.append({"name": "default", "protos": ["v4_local", "v4_public"], "layer": "batteries_included",
                 "features": ["repo_default"]})
     out.append({"name": "none", "protos": [], "layer": "core", "features": []})
